@@ -1690,6 +1690,13 @@ def _build_fn(sf: SourceFile, item: Item, impl, ex: Extract, props, rep, unit, a
         sig_text = text_of(sig_toks[:wpos]).rstrip()
     if ex.ret:
         sig_text = _name_return(sig_text, ex.ret, qual)
+    # R16: a contract written for `&mut self` applied to a function that (now) takes `&self`: old(self) and final(self)
+    # both denote `self` (the frame clauses become trivial, the rest keeps its meaning)
+    self_is_shared = re.search(r"\(\s*&\s*(\'\w+\s+)?self\b", sig_text) is not None
+    if self_is_shared and any(re.search(r"\b(old|final)\s*\(\s*self\s*\)", c.text) for c in ex.clauses):
+        for c in ex.clauses:
+            c.text = re.sub(r"\b(old|final)\s*\(\s*self\s*\)", "self", c.text)
+        rep.append(("R16", "contract written for `&mut self` applied to a `&self` function: old(self)/final(self) -> self"))
     fn_clauses = [c for c in ex.clauses if c.loop == -1]
     stub = a.get("mode") == "stub"
     if stub:
